@@ -178,6 +178,8 @@ type state struct {
 	flows []flowSpec
 	ft    internaltypes.FilterTreeI
 	eng   *engState
+	quotas []flowSpec
+	q      *quotaState
 }
 
 func safeAdd(ft internaltypes.FilterTreeI, fl internaltypes.FlowI) (res string) {
@@ -364,6 +366,34 @@ func exec(c proto.Case, o *proto.Out) []string {
 				}
 			}
 			outs[i] = "r=" + strings.Join(rs, ",")
+		case w[0] == "quota":
+			f, ok := parseFlow(append([]string{w[1], "s"}, w[2:]...))
+			if len(w) < 3 || !ok {
+				outs[i] = "bad-op"
+				break
+			}
+			st.quotas = append(st.quotas, f)
+			outs[i] = "ok"
+		case w[0] == "qload" && len(w) == 1:
+			outs[i] = st.qload()
+			o.Count("qload-" + strings.SplitN(outs[i], " ", 2)[0])
+		case (w[0] == "qreq" || w[0] == "qres") && len(w) >= 3:
+			t, ok := parseTxn(w[0] == "qres", w[1:])
+			if !ok {
+				outs[i] = "bad-op"
+				break
+			}
+			outs[i] = st.qreq(t, fmt.Sprintf("q%d", i))
+			if outs[i] == "run=-" {
+				none++
+				o.Count("q-none")
+			} else if strings.Contains(outs[i], ",") {
+				some++
+				o.Count("q-several")
+			} else {
+				some++
+				o.Count("q-one")
+			}
 		case w[0] == "eng" && len(w) >= 2 && (w[1] == "req" || w[1] == "res"):
 			t, ok := parseTxn(w[1] == "res", w[2:])
 			if !ok {
